@@ -340,6 +340,25 @@ def observe_module(name, rec, probe, out):
                 rec_m["probe"][fname] = ["watchdog"]
             except Exception as x:  # pylint: disable=broad-except
                 rec_m["probe"][fname] = ["EXC", type(x).__name__]
+            # a second probe with special values: first argument infinite, the others negative (where the generated names
+            # decide the order of factors, the sign of an infinite product is what changes)
+            if kwargs is not None and len(kwargs) >= 2:
+                try:
+                    import sympy
+                    from vf.checks import c04
+                    inner = g["inner"]
+                    names_ = list(kwargs)
+                    sp_kwargs = {}
+                    for i_, p_ in enumerate(names_):
+                        mag_ = sympy.oo if i_ == 0 else -sympy.Rational(int(param_mag(func, p_) * 10), 10)
+                        sp_kwargs[p_] = c04.valid_arg(g["inputs"][p_], c04.kind_of_param(inner, p_), mag_)
+                    with harness.Watchdog(20):
+                        res2 = func(**sp_kwargs)
+                    rec_m["probe"][fname + "[oo,-]"] = result_repr(res2)
+                except TimeoutError:
+                    rec_m["probe"][fname + "[oo,-]"] = ["watchdog"]
+                except Exception as x:  # pylint: disable=broad-except
+                    rec_m["probe"][fname + "[oo,-]"] = ["EXC", type(x).__name__]
     out[name] = rec_m
 
 
